@@ -139,6 +139,13 @@ func Minimise(t *testing.T, plan *Plan, sig string, maxRuns int, maxWall time.Du
 				best, changed = c, true
 			}
 		}
+		for i := len(best.Knobs.Observers) - 1; i >= 0; i-- {
+			c := best.Clone()
+			c.Knobs.Observers = append(c.Knobs.Observers[:i], c.Knobs.Observers[i+1:]...)
+			if try(c) {
+				best, changed = c, true
+			}
+		}
 		if best.Knobs.SharedChannel {
 			c := best.Clone()
 			c.Knobs.SharedChannel = false
